@@ -25,10 +25,13 @@ def loop : List (Int × Int) → Int → List (Nat × Bool) → List (Int × Int
 
 def tailMs : Nat := Generated.samiTailMs
 
+/-- every trailing caption that still has no end lasts `tailMs` after the last sync time -/
+def tailRev (e : Int) : List (Int × Int) → List (Int × Int)
+  | [] => []
+  | (s, en) :: rest => if en ≠ 0 then (s, en) :: rest else (s, e) :: tailRev e rest
+
 def translateLang (ps : List (Nat × Bool)) : List (Int × Int) :=
   let (caps, ms) := loop [] 0 ps
-  match caps.getLast? with
-  | some (s, 0) => caps.dropLast ++ [(s, (ms + tailMs) * 1000)]
-  | _ => caps
+  (tailRev ((ms + tailMs) * 1000) caps.reverse).reverse
 
 end PcVerif.Sami
